@@ -429,6 +429,7 @@ func (e *Engine) VerifyFunc(pkgPath, key string, modular bool) (rep *FuncReport,
 	for i, o := range objs {
 		st.vars[o] = args[i]
 	}
+	e.bindNamedResults(st, decl, pkg.TypesInfo)
 	for _, o := range outerObjs { // free variables of a closure: function-typed ones are callable, others symbolic
 		if o == nil {
 			continue
@@ -739,6 +740,10 @@ func (e *Engine) applyContract(fr *frame, st *State, fn *types.Func, decl *ast.F
 			e.extraFn["cres:"+fnName] = fmt.Sprintf("(declare-fun %s (Int) Any)", fnName)
 			boxed := e.box(rets[0], spec.Type{K: spec.KAny})
 			st.facts = append(st.facts, sx.App("=", sx.App(fnName, (&pos).LenT()), boxed))
+			if rets[0].Ty.K == spec.KStruct && e.Go64 { // the ghost value of a pointer result is null exactly if the pointer is nil
+				spec.DeclareNilPtr(rets[0].Ty.Name)
+				st.facts = append(st.facts, sx.App("=", sx.App("=", boxed, sx.Atom("AnyNull")), sx.App("isnilp_"+rets[0].Ty.Name, rets[0].T)))
+			}
 			if rets[0].Ty.K == spec.KInt { // unbox(box(x)) == x for this value
 				st.facts = append(st.facts, sx.App("=", e.uf("unbox_Int", spec.Type{K: spec.KInt}, Val{TV: spec.TV{T: boxed, Ty: spec.Type{K: spec.KAny}}}).T, rets[0].T))
 			}
@@ -1474,4 +1479,29 @@ func (e *Engine) closureInit(v *verifier, fn *types.Func, pkg *packages.Package,
 		panic("the outer function never returns the literal on a path the executor follows")
 	}
 	return v2.order
+}
+
+
+// bindNamedResults: named results are variables holding the zero value of their type on entry.
+func (e *Engine) bindNamedResults(st *State, decl *ast.FuncDecl, info *types.Info) {
+	if decl.Type.Results == nil {
+		return
+	}
+	for _, f := range decl.Type.Results.List {
+		for _, n := range f.Names {
+			o := info.Defs[n]
+			if o == nil || n.Name == "_" {
+				continue
+			}
+			func() {
+				defer func() { recover() }()
+				ty := e.typeOf(o.Type())
+				if ty.K == spec.KUnit {
+					st.vars[o] = unit()
+					return
+				}
+				st.vars[o] = Val{TV: spec.TV{T: e.zeroGo(o.Type()), Ty: ty}}
+			}()
+		}
+	}
 }
